@@ -13,10 +13,10 @@ func init() {
 	register(&propertyDef{
 		id:    "C20",
 		title: "the engine API classifies results and resolves files consistently",
-		rules: []ruleFunc{c20R1, c20R2, c20R3, c20R4, c20R5, c20R6},
+		rules: []ruleFunc{c20R1, c20R2, c20R3, c20R4, c20R5, c20R6, c20R7, c20R8},
 		decided: "engineWorkflow.Run flags the result with OutputSchema()[id].Error() of the very id Execute returned, and every error return carries the flag true (R1); infer.OutputSchema derives the error flag from `outputID == \"error\"` only when no explicit schema was given and returns an explicit schema unchanged (R2); " +
 			"the exit-code table of the command-line tool: parse error 1, run error 3, error output 2, otherwise 0 (R3); file access in the engine is confined to loadfile.LoadContext, the readFile built-in and cmd/*, and relative names are joined with the absolute context directory (R4); " +
-			"RunWorkflow = Parse then Run on the same context and file name, the default workflow file name is workflow.yaml (R5).",
+			"RunWorkflow = Parse then Run on the same context and file name, the default workflow file name is workflow.yaml (R5). The declared output schema object itself reaches infer.OutputSchema (R7); parsing/preparing keeps no state between calls (R8 = C10.R5).",
 		notDecided: "equality with direct execution of the same text; independence from the working directory (the readFile built-in resolves against the process directory); nesting depth; file-map ordering beyond C16.",
 	})
 }
@@ -437,4 +437,54 @@ func c20R6(c *Ctx) {
 	relabel(c, "C11.R2c", "C20.R6", c11R2c)
 	c.explanation = c.explanation[:e0]
 	c.explain("C20.R6 = C11.R2c the in-progress marker of the sub-workflow collection is removed right after each recursive call, so a sub-workflow shared by several branches (at any depth, in any file-map order) is loaded rather than reported as a cycle")
+}
+
+// C20.R7 the declared output schema reaches the classification unchanged.
+// engineWorkflow.Run takes the error flag from the prepared workflow's OutputSchema(); Prepare must hand the schema object
+// that the workflow declares for an output — not a reconstruction of some of its fields — to infer.OutputSchema (R2 shows
+// that infer.OutputSchema returns it as is), and must store that function's result under the same output id.
+func c20R7(c *Ctx) {
+	const rule = "C20.R7"
+	c.explain("C20.R7 in Prepare the explicit schema passed to infer.OutputSchema for an output is, on every path, either nil or the very element of workflow.OutputSchema looked up with that output's id (not a copy that could drop the error flag), the id passed is the same id, and the result is what gets stored as that output's schema")
+	fn := c.Fn("(*workflow.executor).Prepare")
+	inferF := c.Fn("infer.OutputSchema")
+	if fn == nil || inferF == nil {
+		return
+	}
+	osF := c.field(pkgWorkflow, "Workflow", "OutputSchema")
+	n := 0
+	eachInstr(fn, func(r instrRef) {
+		call, ok := r.I.(*ssa.Call)
+		if !ok || call.Common().StaticCallee() != inferF || len(call.Call.Args) < 3 {
+			return
+		}
+		n++
+		key := fmt.Sprintf("declared-schema@%s#%d", c.fnName(fn), n)
+		idArg, schemaArg := call.Call.Args[1], call.Call.Args[2]
+		var lookupKey ssa.Value
+		okSrc := allSources(schemaArg, func(v ssa.Value) bool {
+			if isNilConst(v) {
+				return true
+			}
+			ex, ok := v.(*ssa.Extract)
+			if !ok || ex.Index != 0 {
+				return false
+			}
+			l, ok := ex.Tuple.(*ssa.Lookup)
+			if !ok || loadedField(l.X) != osF {
+				return false
+			}
+			lookupKey = l.Index
+			return true
+		})
+		sameID := lookupKey != nil && (lookupKey == idArg || derivesFrom(lookupKey, isValue(idArg)) || derivesFrom(idArg, isValue(lookupKey)))
+		c.verdict(okSrc && sameID, rule, key, c.instrPos(call), "the declared schema object itself (or nil) is passed, looked up with the same output id",
+			fmt.Sprintf("the schema handed to infer.OutputSchema is not the declared schema object of that output (declared-object-or-nil=%v, same-id=%v): a rebuilt copy can lose the `error` flag, and the result would be classified from the wrong schema", okSrc, sameID))
+	})
+	c.minCount(rule, "infer.OutputSchema calls in Prepare", n, 1)
+}
+
+// C20.R8 = C10.R5: parsing and preparing keep no state between calls (no memo of file contents or prepared parts).
+func c20R8(c *Ctx) {
+	shareRule(c, "C10.R5", "C20.R8", c10R5, "the parse/prepare paths write no engine-lifetime object and no package-level variable (a process-wide memo of file contents, for instance): the result depends on the current contents of the context directory only, not on what an earlier run in the same process loaded")
 }
